@@ -122,6 +122,13 @@ pub enum SOp {
     CallBurst { name: usize, ctx: usize, n: usize },
     Tick { ms: u64 },
     Restart { crash: bool },
+    /// let the store's collector work off its queue (head:N evictions, expired frames)
+    GcDrain,
+    /// a trigger appended while the content store refuses writes (its temp directory is
+    /// replaced by a file until the handlers have reacted)
+    CasFaultTrigger { ctx: usize },
+    /// a command call issued while the content store refuses writes
+    CasFaultCall { name: usize, ctx: usize },
     /// a crash that strikes right after the operator appended one more frame (nothing has reacted yet)
     CrashAfter { what: usize, name: usize, ctx: usize },
     Quiesce,
@@ -335,6 +342,8 @@ struct CallRec {
     def: Option<Scru128Id>,
     /// a definition of that name exists in another context only
     foreign_def: bool,
+    /// issued while the content store refused writes
+    casfault: bool,
 }
 
 #[derive(Clone, Debug)]
@@ -747,6 +756,51 @@ impl Run {
             }
             SOp::Quiesce => self.quiesce(chooser, vec![])?,
             SOp::Restart { crash } => self.restart(chooser, *crash)?,
+            SOp::CasFaultTrigger { ctx } => {
+                let c = self.ctx(*ctx);
+                let tmp = self.path.join("cacache").join("tmp");
+                let bak = self.path.join("cacache").join("tmp.sim-away");
+                let _ = std::fs::create_dir_all(&tmp);
+                std::fs::rename(&tmp, &bak).map_err(|e| Stop::Harness(format!("cas fault: {}", e)))?;
+                std::fs::write(&tmp, b"not a directory").map_err(|e| Stop::Harness(format!("cas fault: {}", e)))?;
+                // every active handler of the context that writes content fails on this trigger
+                let keys: Vec<(Scru128Id, String)> = self.active.keys().filter(|(cc, _)| *cc == c).cloned().collect();
+                for k in keys {
+                    let id = self.active[&k];
+                    if self.instances.iter().any(|x| x.id == id && writes_content(&x.script, false)) {
+                        self.active.remove(&k);
+                        self.w.probe("handler:content-write-failed");
+                    }
+                }
+                let f = self.op_append(Frame::builder(format!("trig.{}", i), c).meta(serde_json::json!({"fail": false, "op": i, "selfstop": false, "casfault": true})).build())?;
+                self.triggers.push((f.id, c, false));
+                let r = self.quiesce(chooser, vec![]);
+                let _ = std::fs::remove_file(&tmp);
+                std::fs::rename(&bak, &tmp).map_err(|e| Stop::Harness(format!("cas fault restore: {}", e)))?;
+                r?;
+                self.w.probe("fault:cas-write-refused");
+            }
+            SOp::CasFaultCall { name, ctx } => {
+                let c = self.ctx(*ctx);
+                let n = CNAMES[name % CNAMES.len()];
+                let tmp = self.path.join("cacache").join("tmp");
+                let bak = self.path.join("cacache").join("tmp.sim-away");
+                let _ = std::fs::create_dir_all(&tmp);
+                std::fs::rename(&tmp, &bak).map_err(|e| Stop::Harness(format!("cas fault: {}", e)))?;
+                std::fs::write(&tmp, b"not a directory").map_err(|e| Stop::Harness(format!("cas fault: {}", e)))?;
+                let r = self.do_call_x(n, c, 7, true).and_then(|_| self.quiesce(chooser, vec![]));
+                let _ = std::fs::remove_file(&tmp);
+                std::fs::rename(&bak, &tmp).map_err(|e| Stop::Harness(format!("cas fault restore: {}", e)))?;
+                r?;
+                self.w.probe("fault:cas-write-refused");
+            }
+            SOp::GcDrain => {
+                let n = self.w.run_kind_until_idle("gc", 100_000)?;
+                if n > 0 {
+                    self.w.probe("gc:drained-in-service-run");
+                }
+                self.quiesce(chooser, vec![])?;
+            }
             SOp::CrashAfter { what, name, ctx } => {
                 let c = self.ctx(*ctx);
                 match what % 3 {
@@ -829,10 +883,14 @@ impl Run {
     }
 
     fn do_call(&mut self, n: &str, c: Scru128Id, arg: usize) -> R<()> {
+        self.do_call_x(n, c, arg, false)
+    }
+
+    fn do_call_x(&mut self, n: &str, c: Scru128Id, arg: usize, casfault: bool) -> R<()> {
         let f = self.op_append(Frame::builder(format!("{}.call", n), c).meta(serde_json::json!({"arg": arg})).build())?;
         let def = self.defs.iter().rev().find(|d| d.name == n && d.ctx == c && !d.cmd.invalid).map(|d| d.id);
         let foreign_def = def.is_none() && self.defs.iter().any(|d| d.name == n && d.ctx != c && !d.cmd.invalid);
-        self.calls.push(CallRec { id: f.id, name: n.to_string(), ctx: c, def, foreign_def });
+        self.calls.push(CallRec { id: f.id, name: n.to_string(), ctx: c, def, foreign_def, casfault });
         self.w.probe(if def.is_some() { "cmd:call" } else { "cmd:call-undefined" });
         Ok(())
     }
@@ -990,7 +1048,9 @@ impl Run {
                 if Self::meta_str(trig, "handler_id").as_deref() == Some(&hid) {
                     return violation("dispatch/self-loop", format!("{} was invoked for its own output {}", desc, fmt_frame(trig)));
                 }
-                let failing = trig.meta.as_ref().and_then(|m| m.get("fail")).and_then(|v| v.as_bool()).unwrap_or(false) && inst.script.fail_at.is_some();
+                // (a content-store fault only hits the instances that met the trigger live)
+                let cas_failed = is_casfault(trig) && pos_of[&trig.id] > reg_pos && writes_content(&inst.script, false);
+                let failing = trig.meta.as_ref().and_then(|m| m.get("fail")).and_then(|v| v.as_bool()).unwrap_or(false) && inst.script.fail_at.is_some() || cas_failed;
                 if failing {
                     return violation("output/partial-on-error", format!("{} failed on {} but still emitted {}", desc, fmt_frame(trig), fmt_frame(frames[0])));
                 }
@@ -1182,9 +1242,14 @@ impl Run {
                 if earlier_fail {
                     continue;
                 }
+                let earlier_cas_fail = writes_content(&inst.script, false) && self.triggers.iter().any(|(oid, oc, _)| *oc == inst.ctx && pos_of.get(oid).map(|p| *p > reg_pos && *p < tp && is_casfault(&log[*p])).unwrap_or(false));
+                if earlier_cas_fail {
+                    continue;
+                }
+                let cas_fails_here = is_casfault(&log[tp]) && tp > reg_pos && writes_content(&inst.script, false);
                 let answered = by_trigger.contains_key(&tid.to_string());
                 let expects_output = inst.script.ret != Ret::Nothing || !inst.script.appends.is_empty();
-                if tfail && inst.script.fail_at.is_some() {
+                if tfail && inst.script.fail_at.is_some() || cas_fails_here {
                     // must be unregistered with the error, stamped with this trigger
                     let ok = unregistered.first().map(|u| Self::meta_str(u, "frame_id").as_deref() == Some(&tid.to_string()) && Self::meta_str(u, "error").is_some()).unwrap_or(false);
                     if !ok {
@@ -1773,6 +1838,18 @@ impl Run {
                     return violation("cmd/ttl", format!("{}: {} has ttl {:?}, the definition asks for {:?}", desc, fmt_frame(f), f.ttl, ttl));
                 }
             }
+            if call.casfault && (!def.cmd.outputs.is_empty() || def.cmd.explicit_append || def.cmd.cat_probe) {
+                // the content store refused every write while this call ran: nothing can have been
+                // delivered, and the call must end with the error
+                if completes == 1 {
+                    return violation("cmd/error-swallowed", format!("{}: the content store refused to store the call's output, but the call ended with {}.complete (results {:?})", desc, call.name, got));
+                }
+                if !recvs.is_empty() {
+                    return violation("cmd/output", format!("{}: {} result frames although the content store refused every write during the call", desc, recvs.len()));
+                }
+                self.w.probe("cmd:content-write-failure-checked");
+                continue;
+            }
             match def.cmd.fail_at {
                 None => {
                     if errors != 0 {
@@ -1832,8 +1909,41 @@ impl Run {
             self.check_dispatch_across_restarts()?;
         }
         self.check_commands()?;
+        self.check_hashes()?;
         Ok(())
     }
+
+    /// Whatever entry point wrote it (operator, handler, generator, command): the hash a frame
+    /// carries is the hash of the bytes behind it, the same function of the bytes everywhere.
+    fn check_hashes(&mut self) -> R<()> {
+        let log = self.log.clone();
+        let mut n = 0;
+        for f in &log {
+            let Some(h) = &f.hash else { continue };
+            let Ok(content) = self.store.cas_read_sync(h) else { continue };
+            if ssri::Integrity::from(&content[..]) != *h {
+                return violation(
+                    "cas/hash-not-the-usual-hash-of-its-content",
+                    format!("{} carries {} but the {} bytes behind it hash to {} through every other entry point", fmt_frame(f), h, content.len(), ssri::Integrity::from(&content[..])),
+                );
+            }
+            n += 1;
+        }
+        if n > 0 {
+            self.w.probe("cas:hash-of-content-checked");
+        }
+        Ok(())
+    }
+}
+
+/// Does an invocation of this script write to the content store (explicit appends, probes, a
+/// return value)?
+fn writes_content(s: &HScript, selfstop_trigger: bool) -> bool {
+    !s.appends.is_empty() || s.cat_probe || s.ret != Ret::Nothing || (s.self_stop && selfstop_trigger)
+}
+
+fn is_casfault(f: &Frame) -> bool {
+    f.meta.as_ref().and_then(|m| m.get("casfault")).and_then(|v| v.as_bool()).unwrap_or(false)
 }
 
 fn pos_in(frames: &[Frame], id: &Scru128Id) -> Option<usize> {
@@ -1858,7 +1968,7 @@ fn gen_hscript(rng: &mut Rng, prop: &str) -> HScript {
     for _ in 0..napp {
         appends.push((
             rng.chance(40),
-            if rng.chance(35) { Some(rng.pick(&["head:1", "head:2", "time:60000", "forever"]).to_string()) } else { None },
+            if rng.chance(35) { Some(rng.pick(&["head:1", "head:2", "time:60000", "forever", "ephemeral"]).to_string()) } else { None },
             rng.chance(25),
         ));
     }
@@ -1990,6 +2100,10 @@ pub fn generate(seed: u64, prop: &str, thorough: bool) -> Plan {
                 o => o,
             };
             let op = match op {
+                SOp::Call { name, ctx, .. } if prop == "C19" && rng.chance(12) => SOp::CasFaultCall { name, ctx },
+                o => o,
+            };
+            let op = match op {
                 SOp::SpawnGen { name, ctx, gen, .. } if (prop == "C17" || prop == "C18") && rng.chance(22) => {
                     let mut gens = vec![gen];
                     for _ in 0..rng.range(1, 2) {
@@ -2025,10 +2139,16 @@ pub fn generate(seed: u64, prop: &str, thorough: bool) -> Plan {
                 // crash right after a stop request / trigger / call: nothing has answered it yet
                 ops.push(SOp::CrashAfter { what: rng.below(3), name: rng.below(2), ctx: rng.below(nctx + 1) });
             } else if prop == "C17" && rng.chance(12) {
+                if rng.chance(50) {
+                    ops.push(SOp::GcDrain);
+                }
                 ops.push(SOp::Restart { crash: rng.chance(50) });
             }
         }
         if prop == "C17" {
+            if rng.chance(50) {
+                ops.push(SOp::GcDrain);
+            }
             ops.push(SOp::Restart { crash: rng.chance(40) });
             for c in 0..=nctx {
                 for nm in 0..2 {
@@ -2082,6 +2202,8 @@ pub fn generate(seed: u64, prop: &str, thorough: bool) -> Plan {
             _ => {
                 if prop == "C14" && rng.chance(50) {
                     SOp::Restart { crash: false }
+                } else if prop == "C15" && rng.chance(60) {
+                    SOp::CasFaultTrigger { ctx: rng.below(nctx + 1) }
                 } else {
                     SOp::Quiesce
                 }
